@@ -531,13 +531,19 @@ func runC16(c *Ctx) {
 	p := c.Progs["mod"]
 	c.Rule("C16.K", "completion of either copy direction closes the pair", 4)
 	c.Rule("C16.D", "every acquired connection is released on exit; Close of the bridge's connection type closes its transport", 5)
-	c.Rule("C16.A", "closing is orderly and cannot be blocked: no abortive-close socket option, Close never waits for a lock held across blocking I/O; no raw descriptor access; dial context not retained; dial bounded in time; no message-size limit that cuts a stream short (= C15.L)", 6)
+	c.Rule("C16.A", "closing is orderly and cannot be blocked: no abortive-close socket option, Close never waits for a lock held across blocking I/O; no raw descriptor access; dial context not retained; dial bounded in time; no message-size limit that cuts a stream short (= C15.L); Read hands out everything before the end (= C15.E)", 11)
 	c16Orderly(c, p)
 	ruleNoRawDescriptor(c, p, "C16.A")
 	ruleDialContextNotRetained(c, p, "C16.A")
 	ruleDialHandshakeBounded(c, p, "C16.A")
 	ruleNoReadLimit(c, p, "C16.A")
 	ruleBridgeConnCloseClosesTransport(c, p, "C16.D")
+	// Read hands out every decoded byte before it reports the end of the stream (= C15.E): a
+	// read-ahead goroutine whose close signal can overtake queued chunks drops data sent before
+	// the close
+	c.Borrow(runC15, "C15.E", "C16.A", func(k string) bool {
+		return strings.HasPrefix(k, "Read:") || strings.Contains(k, "WebsocketNetConn).Read")
+	})
 	sites := bridgeSites(p)
 	if len(sites) < 2 {
 		c.Bad("C16.K", "bridging-functions", p, 0, fmt.Sprintf("found %d bridging functions (2 confirmed by hand)", len(sites)))
